@@ -525,7 +525,7 @@ fn gen_bits(ctx: &mut Ctx, max_len: usize) -> (usize, Vec<usize>, String) {
     }
     .min(max_len);
     let nw = len.div_ceil(64);
-    let shape = ctx.rng.below(12);
+    let shape = ctx.rng.below(13);
     let mut ws: Vec<usize> = vec![0; nw];
     let name;
     match shape {
@@ -626,6 +626,16 @@ fn gen_bits(ctx: &mut Ctx, max_len: usize) -> (usize, Vec<usize>, String) {
                 *w = if (i / 8) % 2 == 0 { usize::MAX } else { 0 };
             }
             name = "blocks512";
+        }
+        11 => {
+            // about one bit per 128 / 256 / 512 (Select9 span classes 128..=255 / 256..=511 / >= 512)
+            let d = *ctx.rng.pick(&[100usize, 128, 200, 256, 400, 512, 700]);
+            let mut p = ctx.rng.usize_below(d);
+            while p < len {
+                ws[p / 64] |= 1 << (p % 64);
+                p += 1 + ctx.rng.usize_below(2 * d);
+            }
+            name = "sparse-mid";
         }
         _ => {
             ws.iter_mut()
@@ -791,6 +801,61 @@ pub fn run(ctx: &mut Ctx) {
                     query_battery(ctx, &mut s, false);
                     ctx.shape(format!("big:{}:{}:{}:{}:{}", len, polarity, sid, p1, p2));
                 }
+            }
+        }
+    }
+    // directed: Select9 span-class boundaries.  An inventory entry covers 512 consecutive ones; its
+    // span is measured in groups of four words (256 bits) between the group of its first one and
+    // the group of the next entry's first one; the subinventory encoding changes at spans
+    // 2, 16, 128, 256, 512.  For each boundary span s we place 512 ones so that the span is exactly
+    // s: the first at the start of a group, the bulk spread evenly, and the last two in the final
+    // group of the span, just before the next entry's first one (so that offsets reach the maximum
+    // the class must represent); a second entry with a different span follows.
+    {
+        let spans: &[usize] = &[1, 2, 3, 15, 16, 17, 127, 128, 129, 255, 256, 257, 511, 512, 513];
+        for (k, &sp) in spans.iter().enumerate() {
+            let sp2 = spans[(k + 7) % spans.len()];
+            let g0 = 1 + (k % 3); // first group of the first entry
+            let mut ones: Vec<usize> = vec![];
+            let mut group = g0;
+            for &s_ in &[sp, sp2] {
+                let start = group * 256 + (k * 37) % 200;
+                let end_group = group + s_;
+                let next_first = end_group * 256 + 40 + (k * 13) % 150; // next entry's first one
+                // 512 ones: first at `start`, #510 and #511 just before next_first, the rest spread
+                let avail = next_first - 2 - start;
+                ones.push(start);
+                for i in 1..510 {
+                    ones.push(start + 1 + (i * (avail - 2)) / 510);
+                }
+                ones.push(next_first - 2);
+                ones.push(next_first - 1);
+                group = end_group;
+            }
+            // a short third, incomplete entry
+            let tail_first = group * 256 + 40 + (k * 13) % 150;
+            for i in 0..5 {
+                ones.push(tail_first + 7 * i);
+            }
+            ones.sort();
+            ones.dedup();
+            let len = ones[ones.len() - 1] + 1 + (k * 29) % 300;
+            let nw = len.div_ceil(64);
+            let mut ws = vec![0usize; nw];
+            for &p in &ones {
+                ws[p / 64] |= 1usize << (p % 64);
+            }
+            for &(sid, p1, p2) in &[("sel9", 0usize, 0usize), ("sza_sel9", 3, 1)] {
+                ctx.case();
+                let mut s = fresh();
+                exec(ctx, &mut s, &format!("bits {} {}", len, fmt_list(ws.iter())));
+                exec(ctx, &mut s, &format!("build {} {} {}", sid, p1, p2));
+                query_battery(ctx, &mut s, false);
+                // every rank of the two full entries around the class-critical last ones
+                for r in [0usize, 1, 509, 510, 511, 512, 513, 1021, 1022, 1023, 1024, 1025] {
+                    exec(ctx, &mut s, &format!("select {}", r));
+                }
+                ctx.shape(format!("sel9-span:{}:{}:{}", sp, sp2, sid));
             }
         }
     }
